@@ -45,11 +45,11 @@ func init() {
 				Min:  map[string]int64{"programs": 500}},
 			{Name: "programs", N: tier(250_000, 6_000_000), Run: c01Programs,
 				Rule: "PRNG programs as described above",
-				Min: map[string]int64{"programs": 20000, "lowres": 5000, "highres": 5000, "custom_viewbox": 5000, "custom_palette": 5000, "no_reset": 1000, "resolution_toggled_programs": 5000,
+				Min: map[string]int64{"programs": 20000, "lowres": 5000, "highres": 5000, "custom_viewbox": 5000, "custom_palette": 5000, "no_reset": 1000, "encoders_with_a_past": 20000, "resolution_toggled_programs": 5000,
 					"op_AbsArcTo": 1000, "op_RelArcTo": 1000, "op_SetCReg": 10000, "op_SetNReg": 10000, "op_SetLOD": 1000, "op_AbsHLineTo": 1000, "op_RelVLineTo": 1000}},
 			{Name: "transcode", N: tier(120_000, 3_000_000), Run: c01Transcode,
 				Rule: "decoder-accepted streams (corpus files, mutated corpus files, hand-assembled streams with non-canonical forms) fed to an Encoder and decoded again, 4 hops, with a low-resolution and a high-resolution Encoder",
-				Min:  map[string]int64{"accepted_streams": 10000, "hops": 40000, "unterminated": 100, "fixed_point_checked": 1000}},
+				Min:  map[string]int64{"accepted_streams": 10000, "hops": 40000, "unterminated": 100, "fixed_point_checked": 1000, "one_encoder_for_all_hops": 5000}},
 		},
 	})
 }
@@ -69,12 +69,24 @@ func encodeProgram(ops []rec.Op, hires bool) ([]byte, error) {
 	return b, err
 }
 
+// c01EncodersWithPast counts, per worker process, the Encoders that were given a
+// past before the program under test (reported through c01Programs).
+var c01EncodersWithPast int64
+
 // encodeProgramToggling additionally sets the public resolution flag to
 // toggles[i] right before call i. It returns, per call, whether low
 // resolution applies: the Encoder copies the flag at StartPath, so a change
 // between drawing calls must have no effect until the next path.
 func encodeProgramToggling(ops []rec.Op, hires bool, toggles map[int]bool) ([]byte, []bool, error) {
 	var e encode.Encoder
+	if len(ops) > 0 && ops[0].K == rec.KReset {
+		// The program starts with Reset, so the Encoder may have a past (one in
+		// three: another graphic, selectors moved, possibly abandoned mid-path).
+		if h := rec.HashOps(ops); h%3 == 0 {
+			dirtyDestination(run.NewRng(h), &e, ivg.DefaultPalette)
+			c01EncodersWithPast++
+		}
+	}
 	e.HighResolutionCoordinates = hires
 	field, latched := hires, hires
 	lowres := make([]bool, len(ops))
@@ -246,7 +258,9 @@ func c01Programs(c *run.Ctx, idx uint64) {
 			toggles[r.Intn(len(ops))] = r.Bool()
 		}
 	}
+	before := c01EncodersWithPast
 	c01ForwardToggling(c, ops, hires, toggles, "programs")
+	c.Count("encoders_with_a_past", c01EncodersWithPast-before)
 }
 
 type c01BCase struct {
@@ -391,14 +405,23 @@ func c01Transcode(c *run.Ctx, idx uint64) {
 		prevOps := ops0
 		var hop1 []rec.Op
 		var hop2Bytes []byte
+		oneEncoder := run.Hash64(run.HashBytes(s), 17)%2 == 0 // one Encoder for all four hops (Decode starts with Reset) or a fresh one per hop
+		if oneEncoder {
+			c.Count("one_encoder_for_all_hops", 1)
+		}
+		var shared encode.Encoder
 		for hop := 1; hop <= 4; hop++ {
 			var out []byte
 			var eerr, derr error
 			ok := c.Guard("transcode", func() interface{} { return hx(prevBytes) }, func() {
-				var e encode.Encoder
-				var dst ivg.Destination = &e
+				var fresh encode.Encoder
+				e := &fresh
+				if oneEncoder {
+					e = &shared
+				}
+				var dst ivg.Destination = e
 				if hires {
-					dst = hiResEnc{&e}
+					dst = hiResEnc{e}
 				}
 				derr = decode.Decode(dst, prevBytes)
 				var bb []byte
